@@ -241,6 +241,10 @@ func main() {
 		walWorker(os.Args[2:])
 		return
 	}
+	if len(os.Args) > 1 && os.Args[1] == "rewriteworker" {
+		rewriteWorker(os.Args[2:])
+		return
+	}
 	cfg := vhlib.ParseFlags()
 	sum := vhlib.NewSummary("one case = one (log, mutation) pair; logs of 1-4 appended batches (datapoints from boundary pools and random bits, names, meta entries); " +
 		"mutations: every truncation length, single-byte modifications (quick: frame-header bytes + random positions; thorough: every position x 5 values), trailing garbage; " +
@@ -266,6 +270,7 @@ func main() {
 	}
 	walOrder(cfg, sum, dir)
 	walIngestCrash(cfg, sum, r.Fork())
+	walRewriteCrash(cfg, sum, r.Fork())
 	sum.Write(cfg.Out)
 }
 
@@ -765,4 +770,156 @@ func runMetaLog(r *vhlib.Rng, cfg vhlib.Config, sum *vhlib.Summary, dir string, 
 		"Definition obs : list (mutation * (list N * N)) := " + vhlib.CoqListNL(obsItems) + ".\n"
 	expr := "check_meta payloads tbl file obs"
 	sum.WriteCaseFile(cfg.Out, fmt.Sprintf("cases_mm_%d", li), "From SigM Require Import Base Crc32 Wal WalCheck.\n", defs, expr, len(muts)+1)
+}
+
+// ---------- Wal.Write (rewrite of the meta-entry log): every crash prefix of its system calls ----------
+func metaEntries(first uint64, n int) []*structs.MetricsMeta {
+	var b []*structs.MetricsMeta
+	for j := 0; j < n; j++ {
+		id := first + uint64(j)
+		b = append(b, &structs.MetricsMeta{MSegmentDir: fmt.Sprintf("/d/seg%d", id), NumBlocks: uint16(id % 7), DatapointCount: id,
+			TagKeys: map[string]bool{"k": true}, EarliestEpochSec: 1700000000, LatestEpochSec: 1700000060, OrgId: int64(id % 3)})
+	}
+	return b
+}
+
+// rewriteworker <file> <nwrites>: NewWAL, then nwrites Write calls with entries ids 100*i+j
+func rewriteWorker(args []string) {
+	var n int
+	fmt.Sscanf(args[1], "%d", &n)
+	w, err := wal.NewWAL(args[0], &wal.MetricsMetaEncoder{})
+	if err != nil {
+		os.Exit(3)
+	}
+	for i := 1; i <= n; i++ {
+		if err := w.Write(metaEntries(uint64(100*i), 1+i%3)); err != nil {
+			os.Exit(4)
+		}
+	}
+	os.Exit(0)
+}
+
+func walRewriteCrash(cfg vhlib.Config, sum *vhlib.Summary, r *vhlib.Rng) {
+	self, _ := os.Executable()
+	nw := 3
+	if cfg.Thorough() {
+		nw = 6
+	}
+	dir, _ := filepath.Abs(filepath.Join(cfg.Out, "rewrite"))
+	_ = os.MkdirAll(dir, 0o755)
+	logPath := filepath.Join(dir, "metricsMetaEntry.wal")
+	tracef := filepath.Join(dir, "trace.txt")
+	cmd := exec.Command("strace", "-f", "-y", "-xx", "-s", "200000", "-o", tracef, "-e", "trace=openat,write,pwrite64,lseek,rename,renameat,renameat2,unlink,unlinkat,ftruncate,fsync", self, "rewriteworker", logPath, fmt.Sprint(nw))
+	if out, err := cmd.CombinedOutput(); err != nil {
+		sum.HarnessError(fmt.Sprintf("traced rewrite worker: %v %s", err, string(out)))
+		return
+	}
+	ops, err := vhlib.ParseTrace(tracef, dir)
+	if err != nil || len(ops) == 0 {
+		sum.HarnessError(fmt.Sprintf("rewrite trace: %v (%d ops)", err, len(ops)))
+		return
+	}
+	// tokens; the initial NewWAL (creat/trunc + version byte) is the model's fs_new and is skipped
+	type tok struct {
+		coq string
+		op  vhlib.FsOp
+	}
+	var toks []tok
+	seenVersion := false
+	for _, o := range ops {
+		isTmp := strings.HasSuffix(o.Path, ".tmp")
+		switch {
+		case !seenVersion:
+			if o.Kind == "write" && !isTmp {
+				seenVersion = true
+			}
+			continue
+		case o.Kind == "ftruncate" && !isTmp:
+			toks = append(toks, tok{"WTrunc", o})
+		case o.Kind == "write" && !isTmp:
+			toks = append(toks, tok{"WAppend " + vhlib.CoqBytes(o.Data), o})
+		case (o.Kind == "trunc" || o.Kind == "creat") && isTmp:
+			toks = append(toks, tok{"TTrunc", o})
+		case o.Kind == "write" && isTmp:
+			toks = append(toks, tok{"TAppend " + vhlib.CoqBytes(o.Data), o})
+		case o.Kind == "rename":
+			toks = append(toks, tok{"TRename", o})
+		}
+	}
+	atomic := false
+	for _, t := range toks {
+		if t.coq == "TRename" {
+			atomic = true
+		}
+	}
+	// payloads + id table
+	var payloads, tbl []string
+	var ids [][]uint64
+	for i := 1; i <= nw; i++ {
+		b := metaEntries(uint64(100*i), 1+i%3)
+		p, _ := json.Marshal(b)
+		payloads = append(payloads, vhlib.CoqBytes(p))
+		var is []string
+		var iu []uint64
+		for _, e := range b {
+			is = append(is, vhlib.CoqN(e.DatapointCount))
+			iu = append(iu, e.DatapointCount)
+		}
+		ids = append(ids, iu)
+		tbl = append(tbl, "("+vhlib.CoqBytes(p)+", "+vhlib.CoqList(is)+")")
+	}
+	// every prefix: rebuild the file state, read it with the real iterator
+	var obs, tl []string
+	for _, t := range toks {
+		tl = append(tl, "("+t.coq+")")
+	}
+	// index of the last token of each Write = completion point
+	perWrite := len(toks) / nw
+	replayDir := filepath.Join(dir, "replay")
+	for k := 0; k <= len(toks); k++ {
+		_ = os.RemoveAll(replayDir)
+		_ = os.MkdirAll(replayDir, 0o755)
+		rp := filepath.Join(replayDir, "metricsMetaEntry.wal")
+		_ = os.WriteFile(rp, []byte{1}, 0o644) // NewWAL state
+		for _, t := range toks[:k] {
+			o := t.op
+			o.Path = strings.Replace(o.Path, dir, replayDir, 1)
+			o.Path2 = strings.Replace(o.Path2, dir, replayDir, 1)
+			if err := vhlib.ApplyOp(o); err != nil {
+				sum.HarnessError("rewrite replay: " + err.Error())
+				return
+			}
+		}
+		got, st := readMeta(rp)
+		sum.Eval(fmt.Sprintf("rewrite/%d", k), k > 0)
+		sum.Count("rewrite/crash_points")
+		completed := 0
+		if perWrite > 0 {
+			completed = k / perWrite
+		}
+		var want []uint64
+		if completed >= 1 {
+			want = ids[completed-1]
+		}
+		okk := st != 2 && len(got) == len(want) // a read error with nothing completed loses nothing
+		for i := 0; okk && i < len(got); i++ {
+			okk = got[i] == want[i]
+		}
+		if !okk {
+			sum.Fail("meta_wal_rewrite_crash_loses_completed_write", fmt.Sprintf("crash after %d of %d calls of %d Wal.Write rewrites (%d completed): restart reads entries %v (status %d), the last completed Write holds %v",
+				k, len(toks), nw, completed, got, st, want), map[string]interface{}{"calls_completed": k, "writes_completed": completed, "read": got, "expected": want})
+		}
+		var gi []string
+		for _, g := range got {
+			gi = append(gi, vhlib.CoqN(g))
+		}
+		obs = append(obs, fmt.Sprintf("(%d%%nat, (%s, %d))", k, vhlib.CoqList(gi), st))
+	}
+	defs := "Definition payloads : list (list N) := " + vhlib.CoqListNL(payloads) + ".\n" +
+		"Definition tbl : list (list N * list N) := " + vhlib.CoqListNL(tbl) + ".\n" +
+		"Definition observed_ops : list wop := " + vhlib.CoqListNL(tl) + ".\n" +
+		"Definition obs : list (nat * (list N * N)) := " + vhlib.CoqListNL(obs) + ".\n"
+	sum.WriteCaseFile(cfg.Out, "cases_rewrite", "From SigM Require Import Base Crc32 Wal WalRewrite.\n", defs,
+		fmt.Sprintf("check_rewrite %v payloads tbl observed_ops obs", atomic), len(obs)+1)
+	sum.Sample(map[string]interface{}{"part": "Wal.Write rewrite", "writes": nw, "calls": len(toks), "protocol_atomic": atomic})
 }
